@@ -24,6 +24,7 @@ import SF.Props.C05
 import SF.Proofs.UbjEncTop
 import SF.Proofs.JsonEncTop
 import SF.Proofs.JsonRefineTop
+import SF.Proofs.UbjBridgeTop
 namespace SF.Props.C17
 open SF SF.Cbor SF.Cbor.Cst
 
@@ -181,3 +182,61 @@ theorem json_parser_reuse (hist : List Bytes) (probe : Text) (hh : Accepted {} h
   SF.Json.RefineTop.json_parser_reuse hist probe hh hp
 
 end SF.PropsJsonP.C17
+
+
+/-! ## the UBJSON parser -/
+
+namespace SF.PropsUbjP.C17
+open SF SF.Ubjson
+open SF.Ubjson.Parse (P parse events free Fr G liveAny writeChunks)
+open SF.Ubjson.Syn (Item okElems evElems wireStream)
+
+/-- THE FRAME THEOREM.  From EVERY parser state `p` that satisfies the shape invariant `G`
+(every state reachable from `NewParser`) and has no live typed-array header state — in
+particular from every idle state — and for ALL byte strings (grammatical or not): `Parse` on
+the framed parser `Fr v E0 p` (= `p` with another value in the scratch field `valueType` and
+the events `E0` delivered before) returns the same verdict and ends in the same state up to the
+frame.  What earlier documents left behind influences nothing. -/
+theorem ubj_parser_frame (p : P) (hg : G p) (hl : liveAny p = false) (v : Nat) (E0 : List Ev) (b : Bytes) :
+    ∃ v', parse (Fr v E0 p) b = (Fr v' E0 (parse p b).1, (parse p b).2) :=
+  SF.Props.UbjBridge.ubj_parser_frame p hg hl v E0 b
+
+/-- C17 for the UBJSON parser: after ANY history of complete documents (a stream of grammatical
+items, no-ops wherever the grammar allows them) the parser is idle — `s` below: the initial
+state stack, empty length stack and buffer, no stored error; only the event log and the scratch
+field `valueType` differ from a new parser — and then, for EVERY probe byte string (grammatical,
+malformed, truncated, …) the reused parser returns the verdict a NEW parser returns, delivers the
+events a new parser delivers (after those of the history), and ends in the state a new parser
+ends in, up to the frame. -/
+theorem ubj_parser_reuse_any (hist : List (Nat × Item)) (t : Nat) (h1 : okElems hist = true)
+    (hf1 : ∀ nx ∈ hist, free nx.2 ≤ 1000000) (probe : Bytes) :
+    ∃ (vt : Nat) (s : P), parse {} (wireStream hist t) = (s, none) ∧
+      s = { evs := (evElems hist).reverse, valueType := vt } ∧
+      (parse s probe).2 = (parse {} probe).2 ∧
+      events (parse s probe).1 = evElems hist ++ events (parse {} probe).1 ∧
+      ∃ vt', (parse s probe).1 = Fr vt' (evElems hist).reverse (parse {} probe).1 :=
+  SF.Props.UbjBridge.ubj_parser_reuse_any hist t h1 hf1 probe
+
+/-- … the same with the probe arriving in ANY chunking (`Write` per chunk, then end of input) -/
+theorem ubj_parser_reuse_chunks (hist : List (Nat × Item)) (t : Nat) (h1 : okElems hist = true)
+    (hf1 : ∀ nx ∈ hist, free nx.2 ≤ 1000000) (probe : List Bytes) :
+    ∃ (vt : Nat) (s : P), parse {} (wireStream hist t) = (s, none) ∧
+      s = { evs := (evElems hist).reverse, valueType := vt } ∧
+      (writeChunks s probe).2 = (writeChunks {} probe).2 ∧
+      events (writeChunks s probe).1 = evElems hist ++ events (writeChunks {} probe).1 :=
+  SF.Props.UbjBridge.ubj_parser_reuse_chunks hist t h1 hf1 probe
+
+/-- non-vacuity: the history leaves `valueType = int8` behind; the probes are MALFORMED documents
+— same verdicts, same events as on a new parser -/
+example :
+    let hist : List (Nat × Item) := [(0, .arrT 0x69 .i [.int .i8 1])]
+    let s := (parse {} (wireStream hist 0)).1
+    okElems hist = true ∧ s.valueType = BT.int8 ∧
+    (∀ probe ∈ [[0x5b, 0x24, 0x53, 0x23, 0x69, 0x02, 0x69, 0x01, 0x61],
+                [0x7b, 0x23, 0x69, 0x01, 0x69, 0x01, 0x61, 0x21],
+                [0x5b, 0x24, 0x69, 0x69, 0x01]],
+      (parse s probe).2 = (parse {} probe).2 ∧ (parse {} probe).2 ≠ none ∧
+      events (parse s probe).1 = evElems hist ++ events (parse {} probe).1) := by
+  decide +kernel
+
+end SF.PropsUbjP.C17
